@@ -345,7 +345,7 @@ def custom_classes_case(rec, pvl, dialect, cfg, module, text, wit):
 def shard(i, n, tier, seed, rec, hb):
     pvl = common.import_pvl()
     per = 6000 if tier == "quick" else 800000
-    for dialect in DIALECTS:
+    for dialect in common.rotated(DIALECTS, i):
         for j in range(i, per, n):
             hb.beat()
             case(rec, pvl, dialect, f"C12-{seed}-{dialect}-{j}")
